@@ -119,32 +119,40 @@ def cmd_confirm(name):
     return 0 if res['confirmed'] else 1
 
 
+DET = '/tmp/vp_detect'
+
+
 def cmd_detect(name, props):
+    """runs the checks against a scratch worktree of /repo's HEAD with the patch applied (VERIF_REPO / VERIF_BUILD /
+    VERIF_EVIDENCE_DIR point away from /repo, /verif/build and /verif/evidence), so neither /repo nor the committed
+    evidence is ever touched by a seeded-change run"""
     d = os.path.join(VERIF, 'seeded', name)
     m = load(name)
     tier = 'quick'
     if props and props[0] in ('quick', 'thorough'):
         tier = props[0]; props = props[1:]
     props = props or [m['property']]
-    rc, out = sh('git -C %s status --porcelain' % REPO)
-    if out.strip():
-        print('refusing: /repo working tree is not clean'); return 2
-    rc, out = sh('git -C %s apply %s/patch.diff' % (REPO, d))
+    if not os.path.exists(DET):
+        rc, out = sh('git -C %s worktree add -q --detach %s HEAD' % (REPO, DET))
+        if rc: print(out); return 2
+    sh('git checkout -q --detach $(git -C %s rev-parse HEAD) && git checkout -- . && git clean -fdq' % REPO, cwd=DET)
+    rc, out = sh('git apply %s/patch.diff' % d, cwd=DET)
     if rc:
-        print('patch does not apply to /repo:', out[-300:]); return 2
+        print('patch does not apply to HEAD of /repo:', out[-300:]); return 2
     det = m.get('detection', {})
+    bdir = os.path.join(VERIF, 'build', 'seeded_build')
     try:
         for p in props:
-            # evidence of a run on the patched tree goes to a scratch directory: evidence/ is for the tree as it is
             rc, out = sh('./check %s --tier %s' % (p, tier), cwd=VERIF, timeout=7200,
-                         env={'VERIF_EVIDENCE_DIR': os.path.join(VERIF, 'build', 'seeded_evidence')})
+                         env={'VERIF_EVIDENCE_DIR': os.path.join(VERIF, 'build', 'seeded_evidence'),
+                              'VERIF_REPO': DET, 'VERIF_BUILD': bdir, 'VERIF_REPLAYS_DIR': os.path.join(bdir, 'replays')})
             lines = [l for l in out.split('\n') if l.startswith(('VIOLATION', 'UNDECIDED', 'OK', 'KNOWN-FINDING', '  obligation'))]
             key = p if tier == 'quick' else p + ' (thorough)'
             det[key] = {'rc': rc, 'verdict': {0: 'MISSED (exit 0)', 1: 'DETECTED', 2: 'UNDECIDED'}.get(rc, str(rc)), 'lines': lines[:12]}
             print(name, key, det[key]['verdict'])
             for l in lines[:6]: print('   ', l[:220])
     finally:
-        sh('git -C %s checkout -- .' % REPO)
+        sh('git checkout -- . && git clean -fdq', cwd=DET)
     m['detection'] = det
     save(name, m)
     return 0
